@@ -374,7 +374,7 @@ func cmdCheck(args []string) int {
 			writeEvidence(*verif, ps, *tier, seed, nObl, nDis, nCover, funcsUnderContract, bySolver, samples, vcs, float64(solverMs)/1000, time.Since(start).Seconds(), violations, known, loadMs, genMs, solveWall, true)
 			return 2
 		}
-		o.Src = "reachability of this contract point (proved unreachable: the code contradicts the assumed contracts, so obligations behind it hold vacuously)"
+		o.Src = o.Src + " (proved unreachable: the code contradicts the assumed contracts, so obligations behind it hold vacuously)"
 		if isKnown(o.Name) != nil {
 			known = append(known, o)
 		} else {
